@@ -28,7 +28,7 @@ KINDS = ['stray', 'del_struct', 'extra_struct', 'unterminated', 'no_type', 'unkn
          'bad_operator', 'bad_action', 'bad_colour', 'garbage_end', 'garbage_start', 'truncate', 'literal_as_name',
          'dup_settings', 'empty_block', 'dup_type_args']
 FLOORS = {'quick': {f'kind:{k}': 15 for k in KINDS}, 'thorough': {f'kind:{k}': 300 for k in KINDS}}
-STRAY = ['@', '%', ';', '=', '!', '~', '^', '&', '|', '?', '$', '@@', '=;']
+STRAY = ['@', '%', ';', '=', '!', '~', '^', '&', '|', '?', '$', '@@', '=;', '\ufeff', '\ufeff\ufeff']
 SETTING_KINDS = {'column', 'index', 'enum_item', 'table_open', 'group_open', 'ref_short', 'ref_body', 'settings_cont'}
 
 
@@ -291,26 +291,36 @@ def cases(draw, feats, sizes):
     lines = draw(with_comments(lines))
     text = render(lines, '\n', True)
     f = draw(fault(lines))
-    return s, text, f
+    return s, text, f, draw(st.integers(0, 3)) == 0
+
+
+BOM = '\ufeff'
 
 
 def evaluate(c, ctx: Ctx = None):
-    s, text, f = c
+    s, text, f = c[:3]
+    bom = BOM if (len(c) > 3 and c[3]) else ''
     if f is None:
         if ctx is not None:
             ctx.extra['fault_not_applicable'] = ctx.extra.get('fault_not_applicable', 0) + 1
         return []
     kind, flines = f
-    if outcome(text, s.allow_properties) is not None:
+    if outcome(bom + text, s.allow_properties) is not None:
         if ctx is not None:
             ctx.extra['control_rejected'] = ctx.extra.get('control_rejected', 0) + 1
         return []
-    ftext = render(flines, '\n', True)
-    case = dict(kind=kind, text=ftext, base=text, allow_properties=s.allow_properties)
+    body = render(flines, '\n', True)
+    if body.startswith(BOM):
+        # a U+FEFF that is the very first character IS a byte-order mark (and a doubled one is not claimed): not a fault
+        if ctx is not None:
+            ctx.extra['fault_not_applicable'] = ctx.extra.get('fault_not_applicable', 0) + 1
+        return []
+    ftext = bom + body      # a leading byte-order mark is ignored; it must not excuse anything else
+    case = dict(kind=kind, text=ftext, base=bom + text, allow_properties=s.allow_properties)
     viols = judge(kind, ftext, s.allow_properties, case)
     if ctx is not None:
         sample = dict(kind=kind, text=ftext) if len(ftext) < 400 and len(ctx.samples) < ctx.MAX_SAMPLES else None
-        ctx.record(thash(ftext), True, [f'kind:{kind}'], sample)
+        ctx.record(thash(ftext), True, [f'kind:{kind}'] + (['with_bom'] if bom else []), sample)
     return viols
 
 
